@@ -62,6 +62,15 @@ def gen_history(rnd, regs, settings, nblocks=None):
             else:
                 prog = prog[: rnd.randint(1, 25)]
                 homed = active
+            if rnd.random() < 0.3 and len(prog) > 4:
+                # a settings save arriving in the middle of the program (possibly mid-episode)
+                cut = rnd.randrange(2, len(prog) - 1)
+                settings = dict(settings, clear=settings.get("clear"))
+                ext = dict(settings["ext"])
+                code = rnd.choice(sorted(ext))
+                ext[code] = rnd.choice([m for m in ["exclude", "first", "last"] if m != ext[code]])
+                settings["ext"] = ext
+                prog = prog[:cut] + [["settings", dict(settings)]] + prog[cut:]
             steps += prog
         elif k < 0.6:
             steps.append(["event", rnd.choice(EV_END)])
@@ -85,6 +94,21 @@ def gen_history(rnd, regs, settings, nblocks=None):
             cur_regs.append(r)
         else:
             settings = dict(settings, clear=rnd.random() < 0.5)
+            q = rnd.random()
+            if q < 0.35:
+                # change the mode of a configured code / add or drop one
+                ext = dict(settings["ext"])
+                code = rnd.choice(sorted(ext) + ["M900", "M220"])
+                if code in ext and rnd.random() < 0.3 and len(ext) > 1:
+                    del ext[code]
+                else:
+                    ext[code] = rnd.choice(["exclude", "first", "last", "merge" if code != "M117" else "first"])
+                settings["ext"] = ext
+            elif q < 0.55:
+                settings["enter"] = rnd.choice([None, "M117 entering\n", "M106 S0\nM117 in\n"])
+                settings["exit"] = rnd.choice([None, "M117 leaving\n", "M106 S255\n"])
+            elif q < 0.65:
+                settings["g90e"] = not settings.get("g90e")
             steps.append(["settings", dict(settings)])
     return steps
 
